@@ -36,6 +36,7 @@ import (
 	"os"
 	"path/filepath"
 	"sort"
+	"strings"
 	"sync"
 
 	"golang.org/x/sys/unix"
@@ -49,6 +50,7 @@ type Write struct {
 	Off   int64  // offset in the physical file (header included); Trunc: the new length
 	Data  []byte
 	Trunc bool // the file was cut to Off bytes (a rewind below the flushed size, since fix 09014a8)
+	Whole bool // the whole file was replaced atomically (temp file written + fsynced, then renamed over it)
 }
 
 type Event struct {
@@ -76,6 +78,7 @@ type Recorder struct {
 	physical bool
 	dirty    map[string]bool // files with writes not yet seen clean
 	truncW   map[string]bool // physical level: truncated, no later write of the file seen fsynced yet
+	metaDirs map[string]bool // parents of log directories (index folders): scanned for TIMESTAMP files
 }
 
 func NewRecorder(root string, synced bool) *Recorder {
@@ -167,9 +170,44 @@ func headerLen(b []byte) int {
 	return n
 }
 
+// observeMeta: plain files written next to the log directories without going through an appendable: the
+// index TIMESTAMP files (tbtree.writeTsFile: temp file, fsync, rename; the directory is not fsynced). A new
+// content is recorded as ONE atomic pending replacement that no later call makes durable: after a crash
+// the name shows either the old or the new content. Seen at the next traced call of any log.
+func (r *Recorder) observeMeta(ev *Event) {
+	for d := range r.metaDirs {
+		ents, err := os.ReadDir(filepath.Join(r.root, d))
+		if err != nil {
+			continue
+		}
+		for _, e := range ents {
+			if e.IsDir() || !strings.HasPrefix(e.Name(), "TIMESTAMP") {
+				continue
+			}
+			rel := filepath.Join(d, e.Name())
+			cur, err := os.ReadFile(filepath.Join(r.root, rel))
+			if err != nil {
+				continue
+			}
+			if old, known := r.shadow[rel]; known && bytes.Equal(old, cur) {
+				continue
+			}
+			r.shadow[rel] = cur
+			ev.Writes = append(ev.Writes, Write{File: rel, Data: clone(cur), Whole: true})
+		}
+	}
+}
+
 // observe reads back the files of one log directory and turns the differences with the shadow into
 // Created / Writes (caller holds r.mu).
 func (r *Recorder) observe(log string, ev *Event) {
+	if parent := filepath.Dir(log); parent != "." && parent != "/" {
+		if r.metaDirs == nil {
+			r.metaDirs = map[string]bool{}
+		}
+		r.metaDirs[parent] = true
+	}
+	defer r.observeMeta(ev)
 	dir := filepath.Join(r.root, log)
 	ents, err := os.ReadDir(dir)
 	if err != nil {
